@@ -34,6 +34,10 @@ type c13Params struct {
 	Stipend                      int
 	Blocks                       int
 	StartHeight                  int64
+	// a parameter change by governance in the middle of the run (ChangeAt < 0: none): new decrease, emission base and ratios
+	ChangeAt                       int
+	NewDecrease, NewTokens         int64
+	NewStaker, NewDev, NewProvider int64
 }
 
 func genC13(rt *rapid.T) c13Params {
@@ -62,6 +66,16 @@ func genC13(rt *rapid.T) c13Params {
 		p.Blocks = rapid.IntRange(1000, 1100).Draw(rt, "blocksLong")
 	}
 	// heights around digit-length boundaries matter to anything keyed by a decimal height
+	p.ChangeAt = -1
+	if rapid.IntRange(0, 3).Draw(rt, "midRunChange") == 0 {
+		p.ChangeAt = rapid.IntRange(1, 12).Draw(rt, "changeAt")
+		p.NewDecrease = rapid.SampledFrom([]int64{0, 0, 1, 6, blocksPerYear, 2 * blocksPerYear}).Draw(rt, "newDecrease")
+		p.NewTokens = rapid.SampledFrom([]int64{0, 1, 4_200_000, 8_400_000, 1_000_000_000_000}).Draw(rt, "newTokensPerBlock")
+		t2 := rapid.SampledFrom([]int64{100, 100, 50, 0}).Draw(rt, "newRatioSum")
+		p.NewStaker = rapid.Int64Range(0, t2).Draw(rt, "newStaker")
+		p.NewDev = rapid.Int64Range(0, t2-p.NewStaker).Draw(rt, "newDev")
+		p.NewProvider = t2 - p.NewStaker - p.NewDev
+	}
 	p.StartHeight = rapid.SampledFrom([]int64{1, 2, 8, 95, 100, 990, 999, 1000, 1001, 9_990, 10_000, 99_995, 100_000, 999_990, 1_000_000, 5_000_000, 9_999_990}).Draw(rt, "start")
 	return p
 }
@@ -92,6 +106,14 @@ func c13Run(c *chain.Chain, p c13Params, rec *ev.Rec) (sig, msg string, reachedL
 	}
 	for i := 0; i < p.Blocks; i++ {
 		h := p.StartHeight + int64(i)
+		if i == p.ChangeAt && i > 0 {
+			np := minttypes.NewParams(p.Denom, p.NewDev, p.NewTokens, p.NewStaker, p.NewDecrease, c13StipendAddr(p.Stipend), p.NewProvider)
+			if np.Validate() == nil {
+				c.App.MintKeeper.SetParams(f.Ctx, np)
+				p.Staker, p.Dev, p.Provider = p.NewStaker, p.NewDev, p.NewProvider
+				rec.Count("runs-with-a-parameter-change-in-the-middle")
+			}
+		}
 		f.SetBlock(h, chain.GenesisTime.Add(time.Duration(i+1)*6*time.Second))
 		before := f.Snapshot()
 		supBefore := f.AllSupply()
@@ -204,8 +226,8 @@ func TestC13(t *testing.T) {
 		sig string
 		p   c13Params
 	}{
-		{"C13/panic/decrease-ge-blocks-per-year", c13Params{TokensPerBlock: 4, MintDecrease: 3 * blocksPerYear, Staker: 80, Dev: 8, Provider: 12, Denom: "ujkl", Stipend: chain.AccStipend, Blocks: 4, StartHeight: 1}},
-		{"C13/panic/decrease-eq-blocks-per-year-from-zero", c13Params{TokensPerBlock: 0, MintDecrease: blocksPerYear, Staker: 80, Dev: 8, Provider: 12, Denom: "ujkl", Stipend: chain.AccStipend, Blocks: 2, StartHeight: 1}},
+		{"C13/panic/decrease-ge-blocks-per-year", c13Params{TokensPerBlock: 4, MintDecrease: 3 * blocksPerYear, Staker: 80, Dev: 8, Provider: 12, Denom: "ujkl", Stipend: chain.AccStipend, Blocks: 4, StartHeight: 1, ChangeAt: -1}},
+		{"C13/panic/decrease-eq-blocks-per-year-from-zero", c13Params{TokensPerBlock: 0, MintDecrease: blocksPerYear, Staker: 80, Dev: 8, Provider: 12, Denom: "ujkl", Stipend: chain.AccStipend, Blocks: 2, StartHeight: 1, ChangeAt: -1}},
 	} {
 		sig, msg, _ := c13Run(c, r.p, rec)
 		rec.Regress(r.sig, sig != "", msg)
